@@ -137,6 +137,10 @@ func c30Attempts() []c30Attempt {
 	for _, p := range ill {
 		out = append(out, c30Attempt{Pair: p, Client: "ref", Ill: true})
 	}
+	// the same well-formed pairs, but the first OpenSecureChannel says Renew instead of Issue
+	for _, p := range wf {
+		out = append(out, c30Attempt{Pair: p, Client: "ref-renew"})
+	}
 	for _, p := range wf {
 		out = append(out, c30Attempt{Pair: p, Client: "gopcua"})
 	}
@@ -178,7 +182,7 @@ func c30Run(j c30Job) (out c30Out) {
 		wg.Add(1)
 		go func(a *c30Attempt) {
 			defer wg.Done()
-			if a.Client == "ref" {
+			if a.Client == "ref" || a.Client == "ref-renew" {
 				c30Ref(s, a, url, srvKey, cliKey)
 			} else {
 				c30Gopcua(s, a, url, srvKey, cliKey)
@@ -256,6 +260,9 @@ func c30Ref(s *server.Server, a *c30Attempt, url string, srvKey, cliKey *keys.Pa
 		return
 	}
 	ep := &refcodec.Endpoint{Policy: pol, Mode: refcodec.Mode(a.Pair.Mode), EndpointURL: url, RequestedLifetime: 3600000, Timestamp: 132000000000000000}
+	if a.Client == "ref-renew" {
+		ep.OPNRequestType = 1
+	}
 	if !pol.IsNone() {
 		ep.Key, ep.CertDER, ep.PeerCertDER = cliKey.Key, cliKey.CertDER, srvKey.CertDER
 	}
@@ -461,7 +468,7 @@ func c30() {
 	r.Set("configurations", len(configs))
 	r.Set("attempts_per_configuration", natt)
 	r.Set("worker_deaths", p.Deaths)
-	r.Rule(fmt.Sprintf("%d server configurations (all subsets of size <= 2 (thorough: <= 3) of the 11 (policy, mode) pairs, the full set, every singleton's (thorough: and every pair's) complement) x %d OpenSecureChannel attempts (11 well-formed + 7 ill-formed pairs by the reference client, 11 well-formed pairs by the gopcua channel), one real server per configuration; plus the advertised endpoints per configuration; non-trivial = an attempt against a non-empty configuration; distinct = (configuration, requested pair, client)", len(configs), natt))
+	r.Rule(fmt.Sprintf("%d server configurations (all subsets of size <= 2 (thorough: <= 3) of the 11 (policy, mode) pairs, the full set, every singleton's (thorough: and every pair's) complement) x %d OpenSecureChannel attempts (11 well-formed + 7 ill-formed pairs by the reference client, the 11 well-formed pairs again with RequestType Renew in the first request, 11 well-formed pairs by the gopcua channel), one real server per configuration; plus the advertised endpoints per configuration; non-trivial = an attempt against a non-empty configuration; distinct = (configuration, requested pair, client)", len(configs), natt))
 	r.Assume("RSA-2048 keys for both sides (inside every policy's allowed range)", "a pair counts as opened when the OPN response is Good and passes the client's verification; usability (a request answered on the channel) is recorded", "policy None for discovery-only channels is not treated specially: the statement says any pair that is not configured is refused")
 	r.Finish()
 }
@@ -510,6 +517,10 @@ func c30Judge(r *evid.Run, o c30Out, wf []secPair) {
 		if a.Ill {
 			cls = "illformed:" + cls
 		}
+		renew := a.Client == "ref-renew"
+		if renew {
+			cls = "renew-as-first-request:" + cls
+		}
 		cfgClass := "config=nonempty"
 		if o.Mask == 0 {
 			cfgClass = "config=empty"
@@ -521,6 +532,9 @@ func c30Judge(r *evid.Run, o c30Out, wf []secPair) {
 		case !a.Opened && !en && a.Answered != "":
 			r.Outcome("not enabled, yet answered with an OPN response")
 			r.Violate("OPN/"+cls+"/not-refused:"+a.Answered+"/"+cfgClass, fmt.Sprintf("server configured with %v answered the OpenSecureChannel for %s (%s client) with an OPN response instead of refusing it: %s", o.Enabled, a.Pair, a.Client, a.Refusal), replay)
+		case renew && en:
+			// whether a server should open a channel for a Renew that renews nothing is not C30's business
+			r.Outcome(fmt.Sprintf("renew as first request for an enabled pair: opened=%v", a.Opened))
 		case !a.Opened && en:
 			r.Outcome("refused although enabled")
 			r.Violate("OPN/"+cls+"/refused-although-enabled", fmt.Sprintf("server configured with %v refused %s requested by the %s client: %s", o.Enabled, a.Pair, a.Client, a.Refusal), replay)
